@@ -14,8 +14,10 @@
 (* non-conformance naming the object and attribute (transient writes are   *)
 (* seen even if undone later).  E must in addition repeat, bit for bit,    *)
 (* the result of the first evaluation of the same concrete call anywhere   *)
-(* in the history, leave the caller's arguments and the deep snapshot of   *)
-(* every module-level constant unchanged.                                  *)
+(* in the history AND the result the call gives when it is the only call   *)
+(* a fresh interpreter ever makes (`iso`: "whatever other library calls    *)
+(* were made before it"), leave the caller's arguments and the deep        *)
+(* snapshot of every module-level constant unchanged.                      *)
 (***************************************************************************)
 EXTENDS Purity, Json, IOUtils
 
@@ -68,6 +70,7 @@ TrEnd == /\ IsEv("E")
                            ELSE IF ~Ev.args_same THEN "End.argument_mutated"
                            ELSE IF ~Ev.consts_same THEN "End.constants_changed"
                            ELSE IF prev # "" /\ prev # Ev.res THEN "End.result_differs"
+                           ELSE IF Ev.iso # "" /\ Ev.iso # Ev.res THEN "End.result_depends_on_history"
                            ELSE ""} :
                    /\ Finish(Ev.t)
                    /\ (IF f = "" THEN TRUE ELSE Report(f))
